@@ -61,6 +61,10 @@ EXPLANATION += (
     'unfiltered marker table.'
 )
 
+EXPLANATION += (
+    ' Round 5: gene positions stored with an explicitly chosen integer type are sized from the list they index (R-CAP/index-dtype); settings are forwarded (R-FWD).'
+)
+
 RULE_TEXT = (
     "one obligation per cache-path argument, per indexed comprehension, "
     "per cache dataset, per log conditional, per error condition, per "
@@ -91,6 +95,20 @@ def check(ctx):
     # parent's list (shared with C17)
     from .C17 import check_flatten_union_complete
     check_flatten_union_complete(ctx)
+    # settings this property depends on are handed down every call
+    # chain, never left to a callee's default (sa/rules/forwarding.py)
+    from ..rules.capacity import check_index_dtype
+    n_cap = 0
+    for fi_ in ctx.db.iter_functions():
+        if fi_.module.short in ('type_assignment.marker_cache_v2',
+                                'type_assignment.matching'):
+            n_cap += check_index_dtype(ctx, fi_)
+    ctx.ok('R-CAP/index-dtype', 'marker cache writers', 'package',
+           f'{n_cap} explicitly typed store(s) of gene positions judged; '
+           'stores without an explicit type take the default wide integer',
+           nontrivial=False)
+    from ..rules.forwarding import check_forwarding
+    check_forwarding(ctx, {'min_markers', 'query_gene_names', 'reference_gene_names', 'log'})
 
 
 def check_same_cache(ctx):
